@@ -49,6 +49,7 @@ type resQuery struct {
 	AuthDiff     []int       `json:"authdiff"`
 	Subgraph     []int       `json:"subgraph"`
 	Rejected     []int       `json:"rejected"`
+	Dishonest    bool        `json:"dishonest"`
 }
 
 func init() {
@@ -379,7 +380,7 @@ func c10Replay(i int, raw json.RawMessage, seed int) Result {
 	// Room.tla only lets honest servers send what the rules allow on the state they resolved: every event of the
 	// room must therefore be allowed by its own auth events (this binds Room!Send's guard to the real Allowed)
 	for _, e := range q.Events {
-		if e.ID <= 2 || len(q.Rejected) > 0 {
+		if e.ID <= 2 || len(q.Rejected) > 0 || q.Dishonest {
 			continue
 		}
 		prov, err := gmsl.NewAuthEvents(m.list(e.Auth))
